@@ -1,6 +1,9 @@
 package server
 
 import (
+	"errors"
+	"io/fs"
+	"os"
 	"sync"
 	"sync/atomic"
 	"time"
@@ -160,5 +163,14 @@ func HarnessLitmusOnceAtomic() {
 	}
 	wg.Wait()
 	vAssert(vRaceCount() == 0, "litmus: Once and atomics order the accesses")
+	vCover(true, "ran")
+}
+
+// the os error sentinels are usable (aliases of io/fs's) and are found through *os.PathError
+func HarnessLitmusOsSentinels() {
+	err := error(&os.PathError{Op: "stat", Path: "/x", Err: os.ErrNotExist})
+	vAssert(os.ErrNotExist != nil, "litmus: os.ErrNotExist is initialised")
+	vAssert(errors.Is(err, os.ErrNotExist), "litmus: errors.Is finds os.ErrNotExist through a PathError")
+	vAssert(errors.Is(err, fs.ErrNotExist), "litmus: os.ErrNotExist is io/fs's")
 	vCover(true, "ran")
 }
